@@ -72,9 +72,9 @@ CLAIMS = {
         'DESIGN.md section 5, C10',
     ),
     'C11': (
-        'processed_len == checked sum for all (len, tail_len); finalize returns TooLargeInput exactly when the fed total exceeds 4,224,281,216 or is unknown, and length code 169 at the maximum (lemma F with symbolic full-range len); update at the 2^32-4 saturation boundary: for every amount of room 0..5 and piece length up to 6 (concrete), exactly the bytes below the mark are consumed (call trace), len never wraps (overflow checks on), processed_len turns None exactly at 2^32.',
-        "Trusted: Kani's MIR->goto translation, CBMC 6.11 + CaDiCaL, the reference model in harness/refmodel.rs (independent table copies), the stubs listed per harness in the evidence (each a model of an unsupported intrinsic, a proved contract, or a caller-supplied trait impl). Outside the bound: a single update call with a slice >= 4 GiB (the unwrap_or(u32::MAX) arm: such a slice cannot be represented); `len` is concrete: every amount of room 0..5 before the 2^32-4 mark and one interior point (a symbolic-len update harness needs 38.5 M SAT variables and does not fit in memory); real multi-GiB streams are not fed.",
-        'Kani/CBMC bounded model checking (SAT) of the compiled MIR with symbolic inputs; lemma decomposition; native replay of counterexamples',
+        'processed_len == checked sum for all (len, tail_len); finalize returns TooLargeInput exactly when the fed total exceeds 4,224,281,216 or is unknown, and length code 169 at the maximum (lemma F with symbolic full-range len); update at the 2^32-4 saturation boundary: for every amount of room 0..5 and piece length up to 6 (concrete), exactly the bytes below the mark are consumed (call trace), len never wraps (overflow checks on), processed_len turns None exactly at 2^32. Full width (second back end): the MIR of update from entry to the store of the new len is executed symbolically into SMT-LIB2 and z3/cvc5 show, for EVERY state of the invariant (tail_len<=4, len<=2^32-4) and EVERY slice length below 2^63 (incl. >= 4 GiB), that no overflow or slice-index panic is reachable and len+tail_len becomes min(len+tail_len+n, 2^32): the inductive step of the reported length for any chunking.',
+        "Trusted: Kani's MIR->goto translation, CBMC 6.11 + CaDiCaL, the reference model in harness/refmodel.rs (independent table copies), the stubs listed per harness in the evidence (each a model of an unsupported intrinsic, a proved contract, or a caller-supplied trait impl). In the Kani lemmas `len` is concrete: every amount of room 0..5 before the 2^32-4 mark and one interior point (a symbolic-len update harness needs 38.5 M SAT variables and does not fit in memory); real multi-GiB streams are not fed. The MIR->SMT instance trusts the nightly MIR dump, my translator (slice-index and copy_from_slice calls modelled by their length contracts; validated against the real code on 27 triples in the thorough tier), and z3 / cvc5; it stops at the store of len (the per-byte loop is the Kani lemmas' part).",
+        'Kani/CBMC bounded model checking (SAT) of the compiled MIR with symbolic inputs; lemma decomposition; plus symbolic execution of the nightly MIR dump into SMT-LIB2 bit-vector terms decided by z3 and cvc5 for the loop-free length arithmetic of update; native replay of counterexamples',
         'DESIGN.md section 5, C11',
     ),
     'C12': (
